@@ -55,3 +55,17 @@ Theorem C04_evaluate_resets : forall D tst st c F n,
   drain_items D tst F n (evaluate1 st) c = drain_items D tst F n (fresh (config_of st)) c.
 Proof. exact evaluate_resets. Qed.
 Print Assumptions C04_evaluate_resets.
+
+(* ... and for all fourteen node-set query types of the extended cursor-level model *)
+From XP.Model1 Require Import Iter2.
+From XP.Proofs Require Import IterRefine2.
+
+Theorem C04_clone_forgets_all : forall st, clone2 st = fresh2 (clone_cfg2 (config_of2 st)).
+Proof. exact clone_forgets2. Qed.
+Print Assumptions C04_clone_forgets_all.
+
+Theorem C04_evaluate_resets_all : forall D hcode tst st c F n,
+  need2 D hcode tst (config_of2 st) c <= F -> List.length (lsel2 D hcode tst (config_of2 st) c) < n ->
+  drain_items2 D hcode tst F n (evaluate2 st) c = drain_items2 D hcode tst F n (fresh2 (config_of2 st)) c.
+Proof. exact evaluate_resets2. Qed.
+Print Assumptions C04_evaluate_resets_all.
